@@ -105,12 +105,16 @@ def driver_skip(r, step, d, argv, have_strace, stats):
     return None
 
 
-def step_inputs(step, d, rng):
-    """returns (argv, final output path)"""
+def step_inputs(step, d, rng, k=0):
+    """returns (argv, final output path); the input shapes cycle with k: two evidence files with whatever rescoring files are drawn,
+    ONE evidence file WITHOUT rescoring files (plain pass-through), one evidence file with rescoring files, two without"""
     if step == "update_evidence":
-        case = gen_case(rng, n_ev_files=2)
-        while sum(len(f["rows"]) for f in case["ev_files"]) < 3:
-            case = gen_case(rng, n_ev_files=2)
+        n_ev = [2, 1, 1, 2][k % 4]
+        case = gen_case(rng, n_ev_files=n_ev)
+        while sum(len(f["rows"]) for f in case["ev_files"]) < 3 or (k % 4 == 2 and not case["pouts"]):
+            case = gen_case(rng, n_ev_files=n_ev)
+        if k % 4 in (1, 3):
+            case["pouts"] = []
         evs, pouts = write_inputs(case, d)
         out = os.path.join(d, "evidence_updated.txt")
         return ["--mq_evidence"] + evs + ["--mq_evidence_out", out] + (["--perc_results"] + pouts if pouts else []), out
@@ -182,7 +186,7 @@ def run(r: core.Runner):
     for step in ("update_evidence", "andromeda2pin"):
         for k in range(n_inputs):
             d = tempfile.mkdtemp(prefix=f"c16_{step}_", dir=core.scratch())
-            argv, out = step_inputs(step, d, rng)
+            argv, out = step_inputs(step, d, rng, k)
             items.append((step, d, argv, out))
 
     def process(item):
